@@ -62,11 +62,18 @@ def check_drop_ranges(ctx, cfg):
     for path, info in owners.items():
         tail = path.split("::")[-1]
         key = "<%s<$0,$1> as core::ops::Drop>::drop" % tail
+        if db.get(key) is None:
+            # an owner type with another number of type parameters: take its Drop impl as it is named in this build
+            alt = [b_["key"] for b_ in db.bodies if b_["key"].startswith("<%s<" % tail) and b_["key"].endswith(" as core::ops::Drop>::drop")]
+            if len(alt) == 1:
+                key = alt[0]
         b = ctx.body(cfg, key, rule)
         if b is None:
             continue
         if tail not in DROP_SPEC:
-            ctx.ob(rule, key, UNKNOWN, "owner type %s has no range specification" % tail, at=b["at"], cfg=cfg, frozen=False)
+            # a type that owns element storage and releases a cursor-described range of it in Drop, which none of the range specifications
+            # covers: what it releases, and whether its methods exclude before they destroy, is not judged - reported, not passed over
+            ctx.ob(rule, key, UNKNOWN, "owner type %s (a Drop impl that releases a range of element storage described by its own cursor fields) has no range specification: its ownership discipline is not decided" % tail, at=b["at"], cfg=cfg)
             continue
         a = ctx.analysis_inl(cfg, key)
         dips = a.calls_to("core::ptr::drop_in_place")
